@@ -3,15 +3,11 @@
 //! Read the `windows` module for reference.
 
 use std::ffi::c_int;
-use std::io::{self, Write};
+use std::io::{self, BufRead, Write};
 use std::ptr::{self, NonNull, null_mut};
-use std::slice;
-
-use memchr_rs::memchr;
 
 use super::{ProcessRunner, Stdin, VirtualMemory, process_common};
 use crate::arena::{Arena, ArenaString};
-use crate::helpers::KIBI;
 use crate::process::{ProcessCaps, ProcessError, ProcessResult, ProcessSpec};
 use crate::runtime::Value;
 
@@ -83,46 +79,17 @@ impl Stdin for UnixStdin {
         print!("{prompt}");
         io::stdout().flush()?;
 
-        let mut cap = 8 * KIBI;
-        let mut buf = ArenaString::with_capacity_in(cap, arena);
-        let mut len = 0;
-
-        loop {
-            if len == cap {
-                cap *= 2;
-                buf.reserve_exact(cap - buf.capacity());
-            }
-
-            let count = cap - len;
-            let base = buf.as_ptr();
-
-            let n = unsafe {
-                libc::read(libc::STDIN_FILENO, base.add(len) as *mut libc::c_void, count)
-            };
-            if n < 0 {
-                return Err(io::Error::last_os_error());
-            }
-            if n == 0 {
-                // EOF
-                break;
-            }
-            let n = n.cast_unsigned();
-
-            len += n;
-
-            let hay = unsafe { slice::from_raw_parts(base, len) };
-            let index = memchr(b'\n', hay, len - n);
-            if index < len {
-                len = index;
-                break;
-            }
+        // Go through std's process-wide buffered handle: one read(2) can return several lines,
+        // and whatever follows the first newline must stay available for the next call.
+        let mut line = std::vec::Vec::new();
+        io::stdin().lock().read_until(b'\n', &mut line)?;
+        if line.last() == Some(&b'\n') {
+            line.pop();
         }
 
-        unsafe {
-            buf.as_mut_vec().set_len(len);
-        }
-
-        Ok(buf)
+        let mut bytes = Vec::with_capacity_in(line.len(), arena);
+        bytes.extend_from_slice(&line);
+        Ok(ArenaString::from_utf8_lossy_owned(bytes))
     }
 }
 
